@@ -267,9 +267,16 @@ Proof.
       * destruct st; try discriminate H1. destruct st; try discriminate H1; cbn [sc_prev]; rewrite ?Ep; exact I.
 Qed.
 
+Lemma exit_jumps_plain e sts : forallb plain_stmt sts = true -> exit_jumps sts e = sts.
+Proof.
+  intros H. destruct e as [x|]; [|reflexivity]. cbn [exit_jumps].
+  induction sts as [|st sts IH]; [reflexivity|]. cbn [forallb] in H. apply andb_true_iff in H. destruct H as [H1 H2].
+  cbn [map]. rewrite (IH H2). destruct st; try discriminate H1. destruct st; try discriminate H1; reflexivity.
+Qed.
+
 Lemma condition_detect_plain f e sts : forallb plain_stmt sts = true -> condition_detect (S f) sts e = Ok sts.
 Proof.
-  intros H. cbn [condition_detect]. rewrite (map_result_plain f e sts H). cbn [bind].
+  intros H. cbn [condition_detect]. rewrite (exit_jumps_plain e sts H). rewrite (map_result_plain f e sts H). cbn [bind].
   unfold scan_jz. rewrite (scan_plain e sts (Build_scan_state None None false []) H eq_refl I). reflexivity.
 Qed.
 
